@@ -45,8 +45,7 @@ func (c *Ctx) mayBeSuccessRet(fn *ssa.Function, r *ssa.Return) bool {
 		return true
 	}
 	if call, ok := last.(*ssa.Call); ok {
-		n := calleeName(call)
-		if strings.HasSuffix(n, ".NewParseError") || strings.HasSuffix(n, ".NewRangeParseError") || n == "fmt.Errorf" || n == "errors.New" {
+		if isErrorCtorCall(call) {
 			return false
 		}
 	}
